@@ -218,6 +218,12 @@ thread_local! {
     static QUIET: RefCell<bool> = const { RefCell::new(false) };
 }
 
+/// panics on the calling thread are recorded but not printed (for helper threads
+/// that re-run a known-to-panic operation on purpose)
+pub fn quiet_panics_on_this_thread() {
+    QUIET.with(|q| *q.borrow_mut() = true);
+}
+
 pub fn install_panic_hook() {
     let default = panic::take_hook();
     panic::set_hook(Box::new(move |info| {
